@@ -106,3 +106,19 @@ Fixpoint diff_runs (ms is_ : list obs) : list (list nat) :=
   | _, _ => [[99%nat]]
   end.
 Definition explain_case (c : case) := (diff_runs (model_obs c) (c_impl c), model_obs c).
+
+(** weaker views of the cassette calls *)
+Definition cev_kind_eqb (a b : cev) : bool :=
+  match a, b with
+  | CCreate x, CCreate y => str_eqb x y
+  | CSave n _ _, CSave m _ _ | CSaveFailed n, CSaveFailed m | CAbort n, CAbort m => Nat.eqb n m
+  | CGet x, CGet y => Bool.eqb x y
+  | _, _ => false
+  end.
+Definition cev_nometa_eqb (a b : cev) : bool :=
+  match a, b with
+  | CSave n dx _, CSave m dy _ => Nat.eqb n m && rec_eqb dx dy
+  | _, _ => cev_kind_eqb a b
+  end.
+Definition eq_cass_kinds (m i : obs) := list_eqb cev_kind_eqb (ob_cass m) (ob_cass i).
+Definition eq_cass_nometa (m i : obs) := list_eqb cev_nometa_eqb (ob_cass m) (ob_cass i).
